@@ -63,15 +63,25 @@ def main():
     index = {"keys": {}, "chains": {}}
     keys = {}
     serial = 0x1000
+    # the last two keys of every ECC kind are EDGE keys: X resp. Y has a leading zero byte (fixed-width encodings and
+    # hashes over X || Y must keep the zero byte; found by rejection sampling, ~1 in 256 keys)
+    EDGE = {"p256": 2, "p384": 2, "p521": 2}
     for kind, cnt in SPEC.items():
-        for i in range(cnt):
+        for i in range(cnt + EDGE.get(kind, 0)):
             name = f"{kind}_{i}"
             ppath = os.path.join(OUT, name + ".pem")
             if os.path.exists(ppath):
                 key = serialization.load_pem_private_key(open(ppath, "rb").read(), None)
+            elif i >= cnt:
+                size = {"p256": 32, "p384": 48, "p521": 66}[kind]
+                limit = 1 << (8 * (size - 1) if kind != "p521" else 512)
+                while True:
+                    key = gen(kind)
+                    pn = key.public_key().public_numbers()
+                    if (pn.x if i == cnt else pn.y) < limit:
+                        break
             else:
                 key = gen(kind)
-                # force some variety: nothing special; leading-zero keys are found by rejection sampling in the checks
             keys[name] = key
             write(name + ".pem", key.private_bytes(serialization.Encoding.PEM, serialization.PrivateFormat.PKCS8, serialization.NoEncryption()))
             write(name + ".der", key.private_bytes(serialization.Encoding.DER, serialization.PrivateFormat.PKCS8, serialization.NoEncryption()))
